@@ -82,6 +82,7 @@ fn main() {
             let index: u64 = args[4].parse().unwrap_or_else(|_| usage());
             let Some(s) = sweeps.iter().find(|s| s.name == args[2]) else { usage() };
             vlib::alloc::set_refuse_above(sweep::WORKER_MEM_REFUSE);
+            s.apply_env();
             vlib::worker::worker_loop(0, 1, 1, |_, acc| (s.case)(index, acc));
         }
         sweep::dispatch(sweeps, &args[2], start, stride, end);
